@@ -683,3 +683,49 @@ func zzH_C10_prove_verify(t *zzT) {
 //zz:quick KL=3 P=3 K=1 Q=1 ORDERED=0 TAG=1 budget=300s
 //zz:thorough KL=3 P=4 K=1 Q=2 ORDERED=0 TAG=1 budget=3600s
 func zzH_C10_prove_verify_three_layers(t *zzT) { zzH_C10_prove_verify(t) }
+
+// C10 "independent of … batching, overwrites": a batch handed to Update may name a key more than once (the
+// first occurrence counts; later ones are dropped by Update's own de-duplication). A batch of three entries
+// over two pool keys with every arrangement of the repeat ([a a b], [a b a], [b a a], [a b b] …), fresh
+// symbolic values: the root is the reference root of the map in which every key has the value of its FIRST
+// occurrence, on an empty trie and on a trie that already holds the keys.
+// (seed C10-7 paired the n-th kept key with values[n] of the input batch.)
+//
+//zz:opt loop=300 require=end sched=0 gor=3000 hashdepth=64
+//zz:quick P=3 TAG=1
+//zz:thorough P=4 TAG=1 budget=1800s
+func zzH_C10_batch_repeated_key(t *zzT) {
+	vals := &zzValues{t: t}
+	s := zzNewBuild(t, vals)
+	P := len(s.pool)
+	if t.Bool("prefilled") {
+		var ks, vs [][]byte
+		for i := 0; i < 2; i++ {
+			v := vals.fresh()
+			ks, vs = append(ks, s.pool[i]), append(vs, v)
+			s.cur[i] = v
+		}
+		_, err := s.tr.Update(s.db, ks, vs)
+		t.Assert(err == nil, "setup: Update succeeds")
+	}
+	// three entries; each names one of the first P pool keys; at least one key is named twice
+	idx := make([]int, 3)
+	for i := range idx {
+		idx[i] = t.Range(t.Name("entry.key", i), 0, P-1)
+	}
+	t.Assume(idx[0] == idx[1] || idx[0] == idx[2] || idx[1] == idx[2])
+	var ks, vs [][]byte
+	seen := make([]bool, P)
+	for _, k := range idx {
+		v := vals.fresh()
+		ks, vs = append(ks, s.pool[k]), append(vs, v)
+		if !seen[k] {
+			seen[k] = true
+			s.cur[k] = v
+		}
+	}
+	root, err := s.tr.Update(s.db, ks, vs)
+	t.Assert(err == nil, "Update of a batch with a repeated key succeeds")
+	t.Assert(err != nil || bytes.Equal(root, s.refRoot()), "a batch with a repeated key commits the first value of every key (root = reference root of that map)")
+	t.Reach("end")
+}
